@@ -244,37 +244,84 @@ def idempotent_target(target):
     return st
 
 
-def canon(x):
-    """order-insensitive (for dicts) printable form"""
-    if isinstance(x, dict):
-        return "{" + ",".join(sorted(f"{canon(k)}:{canon(v)}" for k, v in x.items())) + "}"
-    if isinstance(x, (list, tuple)):
-        return ("[" if isinstance(x, list) else "(") + ",".join(canon(v) for v in x) + "]"
-    return f"{type(x).__name__}:{x!r}"
+from common import canon
+
+
+def expected_remote_live(res):
+    """what the bus owes: replay of the base events"""
+    st = {}
+    for (o, ts, e) in res["bus"]:
+        if e["evcategory"] != "base":
+            continue
+        k = e["objpkey"] if not isinstance(e["objpkey"], list) else tuple(e["objpkey"])
+        d = st.setdefault(e["objtype"], {})
+        if e["eventtype"] == "added":
+            d[k] = dict(e["objattrs"])
+        elif e["eventtype"] == "modified" and k in d:
+            d[k].update(e["objattrs"].get("added", {}))
+            d[k].update(e["objattrs"].get("modified", {}))
+            for a in e["objattrs"].get("removed", {}):
+                d[k].pop(a, None)
+        elif e["eventtype"] == "removed":
+            d.pop(k, None)
+    return st
+
+
+def live_part(ds):
+    return {t: {k: {a: v for a, v in o.items() if a != clicase.TS} for k, o in objs.items()}
+            for t, objs in ds.items() if not t.startswith("trashbin_")}
+
+
+def reference_is_healthy(res):
+    """the uninterrupted run itself reached what the bus owes (it may not: findings F5 / F19
+    strike whenever handlers fail, kill or no kill)"""
+    ref = res["ref_obs"][-1]
+    exp = expected_remote_live(res)
+    got = live_part(ref["remotedata"])
+    return not ref["queue"] and not ref["exc"] and canon({t: got.get(t, {}) for t in got}) == canon({t: exp.get(t, {}) for t in got})
 
 
 def final_verdict(res, p):
-    """compare the drained state after the kill with the uninterrupted run"""
+    """compare the drained state after the kill with the uninterrupted run (when that run is
+    itself healthy) and with what the bus owes"""
     ref = res["ref_obs"][-1]
     problems = []
     if p["recover_code"] != 0 or not p["post"]:
         return ["the restarted client crashed: " + str(p["recover_error"])[-300:]]
     fin = p["post"][-1]
-    strip = lambda ds: {t: {k: {a: v for a, v in o.items() if a != clicase.TS} if not t.startswith("trashbin_") else o
-                            for k, o in objs.items()} for t, objs in ds.items()}
-    for name in ("remotedata", "localdata"):
-        if canon(strip(fin[name])) != canon(strip(ref[name])):
-            problems.append(f"{name} differs from the uninterrupted run")
+    exp = expected_remote_live(res)
+    got = live_part(fin["remotedata"])
+    if canon({t: got.get(t, {}) for t in got}) != canon({t: exp.get(t, {}) for t in got}):
+        problems.append("the remote data cache differs from what the bus owes")
     if fin["queue"]:
         problems.append("the error queue does not drain")
-    if fin["next"] != ref["next"]:
-        problems.append(f"saved offset {fin['next']} != {ref['next']}")
     if fin["exc"]:
         problems.append("the client keeps raising: " + fin["exc"][-160:])
-    if canon({f"{k[0]}|{k[1]}": v for k, v in idempotent_target(p["target"]).items()}) != \
-            canon({f"{k[0]}|{k[1]}": v for k, v in idempotent_target(res["ref_target"]).items()}):
-        problems.append("the (idempotent) target differs from the uninterrupted run")
+    if reference_is_healthy(res):
+        strip = lambda ds: {t: {k: {a: v for a, v in o.items() if a != clicase.TS} if not t.startswith("trashbin_") else o
+                                for k, o in objs.items()} for t, objs in ds.items()}
+        for name in ("remotedata", "localdata"):
+            if canon(strip(fin[name])) != canon(strip(ref[name])):
+                problems.append(f"{name} differs from the uninterrupted run")
+        if fin["next"] != ref["next"]:
+            problems.append(f"saved offset {fin['next']} != {ref['next']}")
+        if canon({f"{k[0]}|{k[1]}": v for k, v in idempotent_target(p["target"]).items()}) != \
+                canon({f"{k[0]}|{k[1]}": v for k, v in idempotent_target(res["ref_target"]).items()}):
+            problems.append("the (idempotent) target differs from the uninterrupted run")
     return problems
+
+
+def bus_has_readd(res):
+    removed = set()
+    for (o, ts, e) in res["bus"]:
+        if e["evcategory"] != "base":
+            continue
+        i = (e["objtype"], canon(e["objpkey"]))
+        if e["eventtype"] == "removed":
+            removed.add(i)
+        elif e["eventtype"] == "added" and i in removed:
+            return True
+    return False
 
 
 def in_window(p):
